@@ -341,6 +341,12 @@ def check(ctx):
             ctx.check(key in eff.nullable_guards, "C18.R2n", f"{q.split('.')[-1]}:{key}", st,
                       f"`null` is filtered out of `{key}` but no `if <null in {key}>: ... nullable` precedes it: a nullable union loses null in the converted schema",
                       fi, st, detail=f"guarded by a null-presence test on `{key}` that sets nullable")
+    # a bare `type: "null"` has no OpenAPI 3.0 spelling either (3.0 has no null type)
+    oa = model.func(f"{VMOD}.to_open_api_3_0")
+    handles_bare_null = any(isinstance(c, ast.Compare) and "type" in norm(c.left) and any(isinstance(x, ast.Constant) and x.value == "null" for x in c.comparators) and isinstance(c.ops[0], (ast.Eq, ast.Is)) for c in ast.walk(oa.node))
+    ctx.check(handles_bare_null, "C18.R2n", "to_open_api_3_0:type(bare null)", None,
+              "`type: \"null\"` (NoneType alone, Literal[None]) is only handled inside a type list / anyOf: the OpenAPI 3.0 output keeps `{type: null}`, a type that dialect does not define",
+              oa, oa.node, detail="bare null translated (e.g. nullable + enum [null])")
     # isolate_ref itself
     iso = model.func(f"{VMOD}.isolate_ref")
     t = norm(iso.node)
